@@ -184,10 +184,12 @@ def r2_pagination(ctx):
         ctx.analysed(lf)
         fn = lf.node
         cfg = cfg_of(fn)
-        reqs = [(lp, c) for lp, c in _page_requests(lf) if _loop_carried_kw(lf, lp, c) is not None]
-        ctx.floor('C13.R2', f'{label} page request with a loop-carried continuation argument', len(reqs))
+        # the continuation argument: a keyword of the page request that is None for the first page (whether it is ever
+        # advanced is what the next obligation decides)
+        reqs = [(lp, c) for lp, c in _page_requests(lf) if _loop_carried_kw(lf, lp, c, need_reassigned=False) is not None]
+        ctx.floor('C13.R2', f'{label} page request with a continuation argument', len(reqs))
         lp, req = reqs[0]
-        tok = _loop_carried_kw(lf, lp, req)
+        tok = _loop_carried_kw(lf, lp, req, need_reassigned=False)
         assigns = [a for a in walk_local(lp) if isinstance(a, ast.Assign) and any(isinstance(t, ast.Name) and t.id == tok for t in a.targets)]
         if label == 'S3':
             def from_marker(a):
@@ -201,7 +203,7 @@ def r2_pagination(ctx):
             dec_ok = any(isinstance(a, ast.Assign) and isinstance(a.value, ast.Call) and isinstance(a.value.func, ast.Attribute) and a.value.func.attr == 'json' for a in walk_local(lp))
             ctx.check(okc and dec_ok, 'C13.R2', f'{func_label(lf)}|b2-start-loop-carried', loc(lf, lp), 'B2 listing: startFileName of the next request is nextFileName of the current page', 'B2 listing: the next request does not start at nextFileName of the current page')
             ends = _marker_none_edges(fn, cfg, token_key)
-        ctx.floor('C13.R2', f'{label} end-of-listing test', len(ends))
+        # (no test on the end marker at all: every way out of the generator is then an end without the marker - reported below)
         rst = enclosing_stmt(req)
         rnodes = cfg.nodes_of(rst, 'ok') or cfg.nodes_of(rst, 'stmt')
         # 1. the listing ends only on the end marker: after a page request, no way out of the function that does not
@@ -250,7 +252,7 @@ def r2_pagination(ctx):
                 )
 
 
-def _loop_carried_kw(fn, loop, call):
+def _loop_carried_kw(fn, loop, call, need_reassigned=True):
     """The keyword argument of the page request whose value is a local that is
     initialised to None before the loop and re-assigned inside it."""
     for k in call.keywords:
@@ -258,7 +260,7 @@ def _loop_carried_kw(fn, loop, call):
             nm = k.value.id
             init_none = any(isinstance(a, ast.Assign) and any(isinstance(t, ast.Name) and t.id == nm for t in a.targets) and isinstance(a.value, ast.Constant) and a.value.value is None and not is_within(a, loop) for a in walk_local(fn.node))
             reassigned = any(isinstance(a, ast.Assign) and any(isinstance(t, ast.Name) and t.id == nm for t in a.targets) for a in walk_local(loop))
-            if init_none and reassigned:
+            if init_none and (reassigned or not need_reassigned):
                 return nm
     return None
 
